@@ -448,131 +448,297 @@ theorem multi_statement_text (c : Cfg) (text : String) (parsed : List Node) (ren
     simp [this]
   simp [this]
 
-/-! #### splitting a text into statements -/
+/-! #### splitting a text into statements
+The parser is the parameter `accepts`; nothing here knows a keyword. -/
 
-/-- scanning `s` from mode `m` without any token ending the statement; `none` if one does -/
-def scanRun : Mode → List Tok → Option Mode
-  | m, [] => some m
-  | m, t :: rest => if (splitStep m t).2 then none else scanRun (splitStep m t).1 rest
+theorem pieces_ne_nil (ts : List Tok) : pieces ts ≠ [] := by
+  cases ts with
+  | nil => simp [pieces]
+  | cons t rest =>
+    cases t with
+    | semi => simp [pieces]
+    | word i =>
+      simp only [pieces]
+      split <;> simp
 
-/-- a statement as far as splitting is concerned: not empty, no token in it ends a statement, and
-after it a semicolon would (it does not stop inside a trigger body) -/
-def ClosedStmt (s : List Tok) : Prop :=
-  s ≠ [] ∧ ∃ m, scanRun .atStart s = some m ∧ (splitStep m .semi).2 = true
+/-- cutting at the semicolons and putting the semicolons back gives the text again -/
+theorem pieces_join (ts : List Tok) : joinSemi (pieces ts) = ts := by
+  induction ts with
+  | nil => rfl
+  | cons t rest ih =>
+    cases t with
+    | semi =>
+      simp only [pieces]
+      cases hp : pieces rest with
+      | nil => exact absurd hp (pieces_ne_nil rest)
+      | cons q r => rw [hp] at ih; simp [joinSemi, ih]
+    | word i =>
+      simp only [pieces]
+      cases hp : pieces rest with
+      | nil => exact absurd hp (pieces_ne_nil rest)
+      | cons q r =>
+        rw [hp] at ih
+        cases r with
+        | nil => simp only [joinSemi] at ih ⊢; rw [ih]
+        | cons q2 r2 => simp only [joinSemi, List.cons_append] at ih ⊢; rw [ih]
 
-def joinStmts : List (List Tok) → List Tok
-  | [] => []
-  | [s] => s
-  | s :: rest => s ++ [.semi] ++ joinStmts rest
+/-- NOTHING IS LOST OR REORDERED, whatever the parser accepts: the pieces of the parts, in order, hold
+exactly the tokens of the pieces of the text (the pieces left out are empty ones) -/
+theorem groupF_tokens (accepts : List Tok → Bool) (fuel : Nat) (ps : List (List Tok)) (hf : ps.length ≤ fuel) :
+    ((groupF accepts fuel ps).flatMap Seg.pieces).flatten = ps.flatten := by
+  induction fuel generalizing ps with
+  | zero =>
+    have : ps = [] := List.eq_nil_of_length_eq_zero (by omega)
+    subst this; rfl
+  | succ fuel ih =>
+    cases ps with
+    | nil => rfl
+    | cons p rest =>
+      simp only [List.length_cons] at hf
+      simp only [groupF]
+      split
+      · rename_i he
+        have : p = [] := by simpa using he
+        subst this
+        simpa using ih rest (by omega)
+      · split
+        · rename_i n _
+          have hl : (rest.drop (n - 1)).length ≤ fuel := by simp only [List.length_drop]; omega
+          simp only [List.flatMap_cons, Seg.pieces, List.flatten_append, List.flatten_cons, ih _ hl]
+          rw [List.append_assoc, ← List.flatten_append, List.take_append_drop]
+        · simp only [List.flatMap_cons, Seg.pieces, List.flatten_append, List.flatten_cons, List.flatten_nil,
+            List.append_nil, ih rest (by omega)]
 
-theorem splitAux_run (m m' : Mode) (cur s rest : List Tok) (h : scanRun m s = some m') :
-    splitAux m cur (s ++ rest) = splitAux m' (cur ++ s) rest := by
-  induction s generalizing m cur with
-  | nil => simp [scanRun] at h; subst h; simp
-  | cons t s ih =>
-    simp only [scanRun] at h
-    split at h
-    · cases h
-    · rename_i hne
-      simp only [List.cons_append, splitAux, hne, Bool.false_eq_true, if_false]
-      rw [ih _ _ h]
+theorem split_keeps_every_token (accepts : List Tok → Bool) (ts : List Tok) :
+    ((splitToks accepts ts).flatMap Seg.pieces).flatten = (pieces ts).flatten :=
+  groupF_tokens accepts _ _ (Nat.le_refl _)
+
+/-- `runLen` finds the run of length `n` when that run is accepted and no shorter one is -/
+theorem runLen_shortest (accepts : List Tok → Bool) (done ps : List (List Tok)) (n : Nat)
+    (h1 : done.length < n) (h2 : n ≤ done.length + ps.length)
+    (hacc : accepts (joinSemi ((done ++ ps).take n)) = true)
+    (hno : ∀ k, done.length < k → k < n → accepts (joinSemi ((done ++ ps).take k)) = false) :
+    runLen accepts done ps = some n := by
+  induction ps generalizing done with
+  | nil => simp at h2; omega
+  | cons p rest ih =>
+    have htake : (done ++ p :: rest).take (done.length + 1) = done ++ [p] := by
+      rw [List.take_length_add_append]
       simp
+    simp only [runLen]
+    by_cases hn : n = done.length + 1
+    · subst hn
+      rw [htake] at hacc
+      simp [hacc]
+    · have hk := hno (done.length + 1) (by omega) (by omega)
+      rw [htake] at hk
+      simp only [hk, Bool.false_eq_true, if_false]
+      have heq : done ++ p :: rest = (done ++ [p]) ++ rest := by simp
+      apply ih (done ++ [p])
+      · simp; omega
+      · simp only [List.length_append, List.length_cons, List.length_nil] at h2 ⊢; omega
+      · rw [← heq]; exact hacc
+      · intro k hk1 hk2
+        rw [← heq]
+        exact hno k (by simp at hk1; omega) hk2
 
-theorem splitStep_semi_mode (m : Mode) (h : (splitStep m .semi).2 = true) : (splitStep m .semi).1 = .atStart := by
-  cases m <;> simp_all [splitStep]
+/-- a statement as far as splitting is concerned: a non-empty run of pieces, the first of them not
+empty, which the parser accepts - and it accepts no shorter run of these pieces -/
+def IsStatement (accepts : List Tok → Bool) (run : List (List Tok)) : Prop :=
+  (∃ p rest, run = p :: rest ∧ p ≠ []) ∧ accepts (joinSemi run) = true ∧
+  ∀ k, 0 < k → k < run.length → accepts (joinSemi (run.take k)) = false
 
-/-- Splitting is the inverse of joining: a list of statements joined with semicolons is split into
-exactly those statements - whatever they contain, trigger bodies with their own semicolons included. -/
-theorem split_join (ss : List (List Tok)) (h : ∀ s ∈ ss, ClosedStmt s) :
-    splitToks (joinStmts ss) = ss := by
-  unfold splitToks
-  induction ss with
-  | nil => simp [joinStmts, splitAux, emit]
-  | cons s rest ih =>
-    obtain ⟨hne, m, hrun, hsemi⟩ := h s (by simp)
+theorem groupF_statements (accepts : List Tok → Bool) (fuel : Nat) (ss : List (List (List Tok)))
+    (h : ∀ run ∈ ss, IsStatement accepts run) (hf : ss.flatten.length ≤ fuel) :
+    groupF accepts fuel ss.flatten = ss.map .stmt := by
+  induction ss generalizing fuel with
+  | nil => cases fuel <;> rfl
+  | cons run more ih =>
+    obtain ⟨⟨p, rest, hrun, hpne⟩, hacc, hno⟩ := h run (by simp)
+    subst hrun
+    cases fuel with
+    | zero => simp at hf
+    | succ fuel =>
+      have hflat : (List.flatten ((p :: rest) :: more)) = p :: (rest ++ more.flatten) := by simp
+      rw [hflat]
+      have hpe : p.isEmpty = false := by
+        cases p with
+        | nil => exact absurd rfl hpne
+        | cons a b => rfl
+      have hlen : runLen accepts [] (p :: (rest ++ more.flatten)) = some (rest.length + 1) := by
+        apply runLen_shortest
+        · simp
+        · simp
+        · have : (([] : List (List Tok)) ++ p :: (rest ++ more.flatten)).take (rest.length + 1) = p :: rest := by
+            simp only [List.nil_append, List.take_succ_cons]
+            rw [List.take_left' rfl]
+          rw [this]; exact hacc
+        · intro k hk1 hk2
+          have : (([] : List (List Tok)) ++ p :: (rest ++ more.flatten)).take k = (p :: rest).take k := by
+            cases k with
+            | zero => rfl
+            | succ k =>
+              simp only [List.nil_append, List.take_succ_cons]
+              rw [List.take_append_of_le_length (by omega)]
+          rw [this]
+          exact hno k (by simpa using hk1) (by simpa using hk2)
+      simp only [groupF, hpe, Bool.false_eq_true, if_false, hlen, Nat.add_sub_cancel, List.map_cons]
+      rw [List.take_left', List.drop_left']
+      · rw [ih fuel (fun r hr => h r (by simp [hr])) ?_]
+        rw [hflat] at hf
+        simp only [List.length_cons, List.length_append] at hf
+        omega
+      · rfl
+      · rfl
+
+/-- SPLITTING IS THE INVERSE OF JOINING, for every parser: take statements (`IsStatement`: each accepted,
+no shorter run of its own pieces accepted, its first piece not empty) and write them one after the
+other with semicolons between them - also those which hold semicolons themselves, like a
+CREATE TRIGGER statement - then the text is split into exactly these statements. The condition is
+exact in this sense: if a shorter run of a statement's pieces were accepted the splitter would stop
+there (`shorter_accepted_run_wins`). -/
+theorem split_join (accepts : List Tok → Bool) (ss : List (List (List Tok)))
+    (h : ∀ run ∈ ss, IsStatement accepts run) :
+    group accepts ss.flatten = ss.map .stmt :=
+  groupF_statements accepts _ ss h (Nat.le_refl _)
+
+/-- … and from the text itself (`pieces` of the joined text are the pieces, when no piece holds a
+semicolon token and there is at least one) -/
+theorem pieces_joinSemi (ps : List (List Tok)) (hne : ps ≠ []) (h : ∀ p ∈ ps, Tok.semi ∉ p) :
+    pieces (joinSemi ps) = ps := by
+  induction ps with
+  | nil => exact absurd rfl hne
+  | cons p rest ih =>
+    have hp : Tok.semi ∉ p := h p (by simp)
     cases rest with
     | nil =>
-      have := splitAux_run .atStart m [] s [] hrun
-      simp only [List.append_nil, List.nil_append] at this
-      simp only [joinStmts, this, splitAux, emit]
-      cases s with
-      | nil => exact absurd rfl hne
-      | cons a b => simp
-    | cons s2 rest2 =>
-      have hj : joinStmts (s :: s2 :: rest2) = s ++ (Tok.semi :: joinStmts (s2 :: rest2)) := by
-        simp [joinStmts]
-      rw [hj, splitAux_run .atStart m [] s _ hrun]
-      simp only [List.nil_append, splitAux, hsemi, if_true, splitStep_semi_mode m hsemi]
-      rw [ih (fun x hx => h x (by simp [hx]))]
-      cases s with
-      | nil => exact absurd rfl hne
-      | cons a b => simp [emit]
+      simp only [joinSemi]
+      clear ih h hne
+      induction p with
+      | nil => rfl
+      | cons t p ihp =>
+        cases t with
+        | semi => simp at hp
+        | word i =>
+          have := ihp (by intro hm; exact hp (by simp [hm]))
+          simp [pieces, this]
+    | cons q r =>
+      have ih' := ih (by simp) (fun x hx => h x (by simp [hx]))
+      simp only [joinSemi]
+      clear ih h hne
+      induction p with
+      | nil => simp [pieces, ih']
+      | cons t p ihp =>
+        cases t with
+        | semi => simp at hp
+        | word i =>
+          have := ihp (by intro hm; exact hp (by simp [hm]))
+          simp only [List.cons_append, pieces, this]
 
-/-- in particular a statement is never split by itself -/
-theorem closed_statement_not_split (s : List Tok) (h : ClosedStmt s) : splitToks s = [s] := by
-  have := split_join [s] (by simpa using h)
-  simpa [joinStmts] using this
+theorem split_join_text (accepts : List Tok → Bool) (ss : List (List (List Tok)))
+    (h : ∀ run ∈ ss, IsStatement accepts run) (hne : ss.flatten ≠ [])
+    (hs : ∀ p ∈ ss.flatten, Tok.semi ∉ p) :
+    splitToks accepts (joinSemi ss.flatten) = ss.map .stmt := by
+  unfold splitToks
+  rw [pieces_joinSemi _ hne hs]
+  exact split_join accepts ss h
 
-theorem scanRun_body (d : Nat) (body : List Tok) (hb : ∀ t ∈ body, t ≠ .case_ ∧ t ≠ .end_) :
-    scanRun (.triggerBody d) body = some (.triggerBody d) := by
-  induction body with
+/-- the condition of `split_join` cannot be weakened: a parser that accepts the first piece alone makes
+the splitter stop there (the words are numbers without meaning: 1 2 ; 3 is cut after `1 2`) -/
+theorem shorter_accepted_run_wins :
+    group (fun l => l == [.word 1, .word 2] || l == [.word 1, .word 2, .semi, .word 3]) [[.word 1, .word 2], [.word 3]] =
+      [.stmt [[.word 1, .word 2]], .raw [.word 3]] := by decide
+
+/-! the result does not depend on what the tokens are: renaming the non-semicolon tokens (and the parser
+with them) renames the parts and changes nothing else - no token is a keyword for the splitter -/
+
+def Tok.rename (f : Nat → Nat) : Tok → Tok
+  | .semi => .semi
+  | .word i => .word (f i)
+
+def Seg.rename (f : Nat → Nat) : Seg → Seg
+  | .stmt run => .stmt (run.map (·.map (Tok.rename f)))
+  | .raw p => .raw (p.map (Tok.rename f))
+
+theorem joinSemi_rename (f : Nat → Nat) (ps : List (List Tok)) :
+    joinSemi (ps.map (·.map (Tok.rename f))) = (joinSemi ps).map (Tok.rename f) := by
+  induction ps with
   | nil => rfl
-  | cons t body ih =>
-    have ht := hb t (by simp)
-    have : splitStep (.triggerBody d) t = (.triggerBody d, false) := by
-      cases t <;> simp_all [splitStep]
-    simp only [scanRun, this, Bool.false_eq_true, if_false]
-    exact ih (fun x hx => hb x (by simp [hx]))
+  | cons p rest ih =>
+    cases rest with
+    | nil => rfl
+    | cons q r =>
+      simp only [List.map_cons, joinSemi, List.map_append] at ih ⊢
+      rw [ih]; rfl
 
-theorem scanRun_head (head : List Tok) (hh : ∀ t ∈ head, t = .other) :
-    scanRun .triggerHead head = some .triggerHead := by
-  induction head with
+theorem runLen_rename (f : Nat → Nat) (a a' : List Tok → Bool)
+    (ha : ∀ l, a' (l.map (Tok.rename f)) = a l) (done ps : List (List Tok)) :
+    runLen a' (done.map (·.map (Tok.rename f))) (ps.map (·.map (Tok.rename f))) = runLen a done ps := by
+  induction ps generalizing done with
   | nil => rfl
-  | cons t head ih =>
-    have := hh t (by simp)
-    subst this
-    simp only [scanRun, splitStep, Bool.false_eq_true, if_false]
-    exact ih (fun x hx => hh x (by simp [hx]))
+  | cons p rest ih =>
+    simp only [List.map_cons, runLen, List.length_map]
+    have h1 : done.map (·.map (Tok.rename f)) ++ [p.map (Tok.rename f)] = (done ++ [p]).map (·.map (Tok.rename f)) := by simp
+    rw [h1, joinSemi_rename, ha, ih (done ++ [p])]
 
-theorem scanRun_append (m m' : Mode) (a b : List Tok) (h : scanRun m a = some m') :
-    scanRun m (a ++ b) = scanRun m' b := by
-  induction a generalizing m with
-  | nil => simp [scanRun] at h; subst h; rfl
-  | cons t a ih =>
-    simp only [scanRun] at h
-    split at h
-    · cases h
-    · rename_i hne
-      simp only [List.cons_append, scanRun, hne, Bool.false_eq_true, if_false]
-      exact ih _ h
+theorem groupF_rename (f : Nat → Nat) (a a' : List Tok → Bool)
+    (ha : ∀ l, a' (l.map (Tok.rename f)) = a l) (fuel : Nat) (ps : List (List Tok)) :
+    groupF a' fuel (ps.map (·.map (Tok.rename f))) = (groupF a fuel ps).map (Seg.rename f) := by
+  induction fuel generalizing ps with
+  | zero => rfl
+  | succ fuel ih =>
+    cases ps with
+    | nil => rfl
+    | cons p rest =>
+      have hr := runLen_rename f a a' ha [] (p :: rest)
+      simp only [List.map_nil, List.map_cons] at hr
+      simp only [List.map_cons, groupF, List.isEmpty_map, hr]
+      split
+      · exact ih rest
+      · split
+        · rename_i n _
+          simp only [List.map_cons, Seg.rename, ← List.map_take, ← List.map_drop, ih]
+        · simp only [List.map_cons, Seg.rename, ih]
 
-/-- The body of a CREATE TRIGGER statement is not split: `CREATE [TEMP] TRIGGER head BEGIN body END`
-with ANY body free of CASE/END tokens - any number of semicolons, BEGIN, CREATE, TRIGGER tokens in
-it - is one closed statement. (Bodies with nested CASE … END: see the example.) -/
-theorem trigger_body_not_split (tmp : Bool) (head body : List Tok) (hh : ∀ t ∈ head, t = .other)
-    (hb : ∀ t ∈ body, t ≠ .case_ ∧ t ≠ .end_) :
-    let stmt := [Tok.create] ++ (if tmp then [Tok.temp] else []) ++ [Tok.trigger] ++ head ++ [Tok.begin_] ++ body ++ [Tok.end_]
-    ClosedStmt stmt ∧ splitToks stmt = [stmt] := by
-  intro stmt
-  have hc : ClosedStmt stmt := by
-    refine ⟨by cases tmp <;> simp [stmt], .ordinary, ?_, rfl⟩
-    have h1 : scanRun .atStart ([Tok.create] ++ (if tmp then [Tok.temp] else []) ++ [Tok.trigger]) = some .triggerHead := by
-      cases tmp <;> rfl
-    simp only [stmt, List.append_assoc]
-    rw [← List.append_assoc [Tok.create], ← List.append_assoc ([Tok.create] ++ _),
-      scanRun_append _ _ _ _ h1, scanRun_append _ _ _ _ (scanRun_head head hh)]
-    simp only [List.cons_append, List.nil_append, scanRun, splitStep, Bool.false_eq_true, if_false]
-    rw [scanRun_append _ _ _ _ (scanRun_body 1 body hb)]
-    simp [scanRun, splitStep]
-  exact ⟨hc, closed_statement_not_split stmt hc⟩
+theorem pieces_rename (f : Nat → Nat) (ts : List Tok) :
+    pieces (ts.map (Tok.rename f)) = (pieces ts).map (·.map (Tok.rename f)) := by
+  induction ts with
+  | nil => rfl
+  | cons t rest ih =>
+    cases t with
+    | semi => simp [pieces, Tok.rename, ih]
+    | word i =>
+      simp only [List.map_cons, Tok.rename, pieces, ih]
+      cases pieces rest <;> simp [Tok.rename]
 
-/-- a trigger whose body holds semicolons and a nested CASE … END, between two other statements -/
+/-- THE SPLITTER KNOWS NO KEYWORD: rename the tokens other than the semicolon in any way `f` (BEGIN to
+END, END to an identifier, …) and let the parser `a'` accept a renamed text exactly when `a` accepts
+the original one: the renamed text is split at the same places. -/
+theorem split_independent_of_keywords (f : Nat → Nat) (a a' : List Tok → Bool)
+    (ha : ∀ l, a' (l.map (Tok.rename f)) = a l) (ts : List Tok) :
+    splitToks a' (ts.map (Tok.rename f)) = (splitToks a ts).map (Seg.rename f) := by
+  unfold splitToks group
+  rw [pieces_rename, List.length_map]
+  exact groupF_rename f a a' ha _ _
+
+/-- a toy parser: `1 2` is a statement, and so is `7 8 ; 9 ; 5` (think CREATE TRIGGER … BEGIN … ; … ; END -
+and the words 9 and 5 can just as well be spelled `end`) -/
+def demoAccepts (l : List Tok) : Bool :=
+  l == [.word 1, .word 2] || l == [.word 7, .word 8, .semi, .word 9, .semi, .word 5]
+
+/-- a statement holding semicolons between two others, empty statements, a piece no statement starts
+at (kept, and the search goes on behind it), an unfinished statement at the end -/
 example :
-    let trg := [Tok.create, .trigger, .other, .begin_, .other, .case_, .other, .end_, .semi, .other, .semi, .end_]
-    splitToks ([Tok.other, .other] ++ [.semi] ++ trg ++ [.semi, .semi] ++ [.other]) = [[.other, .other], trg, [.other]] ∧
-    splitToks ([Tok.semi, .semi, .other]) = [[.other]] ∧
-    splitToks ([Tok.begin_, .semi, .other, .case_, .other, .end_, .semi, .other]) =
-      [[.begin_], [.other, .case_, .other, .end_], [.other]] := by decide
+    splitToks demoAccepts [.word 1, .word 2, .semi, .word 7, .word 8, .semi, .word 9, .semi, .word 5, .semi, .semi, .word 1, .word 2] =
+      [.stmt [[.word 1, .word 2]], .stmt [[.word 7, .word 8], [.word 9], [.word 5]], .stmt [[.word 1, .word 2]]] ∧
+    splitToks demoAccepts [.semi, .semi, .word 1, .word 2] = [.stmt [[.word 1, .word 2]]] ∧
+    splitToks demoAccepts [.word 4, .semi, .word 1, .word 2, .semi, .word 7, .word 8, .semi, .word 9] =
+      [.raw [.word 4], .stmt [[.word 1, .word 2]], .raw [.word 7, .word 8], .raw [.word 9]] ∧
+    IsStatement demoAccepts [[.word 7, .word 8], [.word 9], [.word 5]] := by
+  refine ⟨by decide, by decide, by decide, ⟨_, _, rfl, by decide⟩, by decide, ?_⟩
+  intro k h1 h2
+  have : k = 1 ∨ k = 2 := by simp at h2; omega
+  rcases this with rfl | rfl <;> decide
 
 /-- and a statement the parser rejects is passed through unchanged (by design) -/
 theorem unparsable_unchanged (c : Cfg) (text : String) (fp : Bool) (render : Node → String) :
